@@ -45,6 +45,62 @@ func inlinable(fn *ssa.Function) bool {
 	return n <= maxInlineInstrs
 }
 
+// inlinableImpure: a small helper without a contract that is NOT inferred pure (it writes through its arguments) may
+// be encoded from its body as well - its writes are then the writes of the caller, exactly as before the statements
+// were extracted. Excluded: helpers that touch a lock or a field declared shared (the lock discipline is checked per
+// function, not through inlined bodies) and methods of types that carry an object invariant.
+func (w *World) inlinableImpure(fn *ssa.Function) bool {
+	if !inlinable(fn) {
+		return false
+	}
+	if recv := fn.Signature.Recv(); recv != nil {
+		tn := types.TypeString(recv.Type(), func(*types.Package) string { return "" })
+		for _, iv := range w.cs.Invs {
+			if iv.Type == tn {
+				return false
+			}
+		}
+	}
+	sharedField := map[string]bool{}
+	for _, sd := range w.cs.Shared {
+		name := sd.Name
+		for i := len(name) - 1; i >= 0; i-- {
+			if name[i] == '.' {
+				name = name[i+1:]
+				break
+			}
+		}
+		sharedField[name] = true
+		sharedField[sd.Guard] = true
+	}
+	for _, b := range fn.Blocks {
+		for _, in := range b.Instrs {
+			switch x := in.(type) {
+			case *ssa.FieldAddr:
+				if st, ok := x.X.Type().Underlying().(*types.Pointer).Elem().Underlying().(*types.Struct); ok && sharedField[st.Field(x.Field).Name()] {
+					return false
+				}
+			case *ssa.Field:
+				if st, ok := x.X.Type().Underlying().(*types.Struct); ok && sharedField[st.Field(x.Field).Name()] {
+					return false
+				}
+			case *ssa.Call:
+				if c := x.Common().StaticCallee(); c != nil && c.Pkg != nil && c.Pkg.Pkg.Path() == "sync" {
+					return false
+				}
+				if x.Common().IsInvoke() {
+					return false
+				}
+			case *ssa.UnOp:
+				if g, ok := x.X.(*ssa.Global); ok && sharedField[g.Name()] {
+					return false
+				}
+			}
+		}
+	}
+	return true
+}
+
 // inlineCall encodes the body of fn at the current point of e. Returns false (and leaves e untouched) if it cannot.
 func (e *Enc) inlineCall(v ssa.Value, fn *ssa.Function, args []TV, guard string) (ok bool) {
 	if e.inlineDepth >= maxInlineDepth || !inlinable(fn) || len(args) != len(fn.Params) {
